@@ -19,11 +19,11 @@ class C10(Prop):
         F8 = multigen.mk_case("arc_atomic", 8, 1, 0, [[("create", []), ("send", [7]), ("drop", [0]), ("create", []), ("poll", [0])]], [0] * 80, {"profile": "history"})
         out = [Suite("arc_atomic", multigen.HEADER, [F8] + [multigen.gen_history(rng, "arc_atomic") for _ in range(n)])]
         for kind in KINDS:
-            out.append(Suite(kind, "", [multigen.gen_history(rng, kind) for _ in range(m)], compare=False))
+            out.append(Suite(kind, multigen.HEADER, [multigen.gen_history(rng, kind) for _ in range(m)]))
         # listeners added and removed between sends by two threads at once (every shared access of the creations / removals scheduled)
         out.append(Suite("between_sends_arc_atomic", multigen.HEADER, [multigen.gen_phased(rng, "arc_atomic") for _ in range(n // 2)]))
         for kind in KINDS:
-            out.append(Suite("between_sends_" + kind, "", [multigen.gen_phased(rng, kind) for _ in range(m // 2)], compare=False))
+            out.append(Suite("between_sends_" + kind, multigen.HEADER, [multigen.gen_phased(rng, kind) for _ in range(m // 2)]))
         out.append(Suite("recycled_id_race(oracle only)", multigen.HEADER, [multigen.gen_recycle_race(rng) for _ in range(n // 3)], compare=False))
         return out
     def oracle(self, case, recs):
@@ -50,4 +50,4 @@ class C10(Prop):
                 polled = {a[0] for t, p in enumerate(progs) if t not in cts for n, a in p if n in ("poll", "drive")}
                 c.meta.update({"profile": "churn", "stayers": sorted(polled), "churn_tids": cts})
             else: c.meta["profile"] = "history"
-        return Suite("replay", multigen.HEADER, cases, compare=all(c.meta["chan"] == "arc_atomic" for c in cases))
+        return Suite("replay", multigen.HEADER, cases, compare=True)
